@@ -398,6 +398,8 @@ func (s *ctlSys) materialise(slot, variant int) *v1.Service {
 var burstMode = true
 var faultMenu = false
 var crashMenu = false
+var poolFaultMenu = false
+var poolFaultKinds = []string{"Namespace", "IPAddressPool", "Community"}
 
 func (s *ctlSys) Enabled() []verifrt.Event {
 	var evs []verifrt.Event
@@ -417,6 +419,12 @@ func (s *ctlSys) Enabled() []verifrt.Event {
 		}
 		if s.svcQ.Has("reload") && !s.fullSyncOK {
 			evs = append(evs, verifrt.Event{Kind: "svc", S: "reload", B: 2, Fault: true}) // listing the Services fails during the first full sync
+		}
+	}
+	if poolFaultMenu && s.poolQ.Has("pool") {
+		// listing one of the kinds the pool reconciler reads fails once during this delivery
+		for b := range poolFaultKinds {
+			evs = append(evs, verifrt.Event{Kind: "pool", B: b + 1, Fault: true})
 		}
 	}
 	if crashMenu {
@@ -439,6 +447,11 @@ func (s *ctlSys) Enabled() []verifrt.Event {
 			if cur != nil {
 				evs = append(evs, verifrt.Event{Kind: "del", A: i, User: true})
 			}
+		}
+		if poolFaultMenu && s.quiescent() {
+			// an event that re-runs the pool reconciler although nothing it reads changed (a namespace gets an unrelated label,
+			// the informer re-lists)
+			evs = append(evs, verifrt.Event{Kind: "poolresync", User: true})
 		}
 		for j := range s.u.Layouts {
 			if j != s.layout {
@@ -534,11 +547,26 @@ func (s *ctlSys) Apply(ev verifrt.Event) {
 		s.lastUserDesc = "layout"
 		s.setLayoutObjects(ev.A)
 		s.poolQ.Add("pool")
+	case "poolresync":
+		s.lastUserDesc = "pool-resync"
+		s.poolQ.Add("pool")
 	case "crash":
 		s.lastUserDesc = "crash"
 		s.restart()
 	case "pool":
 		s.poolQ.Take("pool")
+		if ev.B > 0 {
+			failed := false
+			kindToFail := poolFaultKinds[ev.B-1]
+			s.store.Fail = func(op, kind string) error {
+				if op == "list" && kind == kindToFail && !failed {
+					failed = true
+					return fmt.Errorf("verif: injected list failure")
+				}
+				return nil
+			}
+			defer func() { s.store.Fail = nil }()
+		}
 		s.guard(func() {
 			_, err := s.pr.Reconcile(context.Background(), ctrl.Request{NamespacedName: types.NamespacedName{Namespace: verifNS, Name: "any"}})
 			if err != nil {
@@ -616,8 +644,18 @@ func (s *ctlSys) restart() {
 	}
 }
 
+// layoutSettled: the configuration in force is the one in the cluster - or corresponds to no configuration of the
+// universe at all (a reconciler that hands over something else than what the cluster says does not get the oracles
+// switched off: the services are then judged by the cluster's configuration, see world)
+func (s *ctlSys) layoutSettled() bool { return s.appliedLayout == s.layout || s.appliedLayout == -2 }
+
 func (s *ctlSys) world() *refalloc.World {
 	j := s.appliedLayout
+	if j == -2 && s.poolQ.Empty() {
+		// what the reconciler handed over corresponds to none of the configurations, and nothing is pending that would
+		// correct it: the services are judged by what the cluster says
+		j = s.layout
+	}
 	if j < 0 {
 		return &refalloc.World{Namespaces: s.u.Namespaces}
 	}
